@@ -110,12 +110,14 @@ def run_case(kind, p):
     msgs = []
     with warnings.catch_warnings():
         warnings.simplefilter("ignore")
-        for nm, fn in (("process_frames_fast", cc.process_frames_fast), ("process_frames_full", cc.process_frames_full)):
-            # a two-frame stack (the same content moved by a few pixels first): the batch helpers reuse their buffers
-            stack = np.stack([np.roll(vals, (3, 5), axis=(0, 1)), vals])
+        # a two-frame stack (the same content moved by a few pixels first): the batch helpers reuse their buffers; the float64
+        # reference stack is ONE array that the caller hands to both entry points, the full-frame one first
+        stack = np.stack([np.roll(vals, (3, 5), axis=(0, 1)), vals])
+        stack64 = stack.astype(np.float64)
+        for nm, fn in (("process_frames_full", cc.process_frames_full), ("process_frames_fast", cc.process_frames_fast)):
             try:
                 kw_ = {"upsample": p["upsample"]} if p.get("upsample") else {}
-                ref = fn(pattern, stack.astype(np.float64), peaks, **kw_)
+                ref = fn(pattern, stack64, peaks, **kw_)
                 if p.get("prior_narrow"):
                     # call history: a stack of 8-bit / 16-bit frames of the same shape, same peaks, processed right before
                     fn(pattern, (np.abs(stack) % 251).astype(p["prior_narrow"]), peaks, **kw_)
@@ -168,6 +170,8 @@ def run_case(kind, p):
                     d = np.abs(a - b)
                     if np.any(d[clear] > (tol[clear] if np.ndim(tol) else tol)):
                         msgs.append(f"{nm}({p['dtype']}): {onm} differ from float64 input by {d[clear].max()}")
+        if not np.array_equal(stack64, stack):
+            msgs.append(f"the float64 frames handed to the batch helpers were modified (max change {np.abs(stack64 - stack).max():.4g})")
     return msgs[:6]
 
 
